@@ -2,6 +2,7 @@ package main
 
 import (
 	"go/token"
+	"go/types"
 	"strings"
 
 	"golang.org/x/tools/go/ssa"
@@ -24,6 +25,11 @@ func runC15(p *Program, r *Report) {
 	ds := decisions(hs)
 	bcs := backendCalls(hs)
 
+	// R-C15-5 plumbing first: it finds the controller field that holds the switch
+	ctrlField := c15Plumbing(p, r)
+	if ctrlField == "" {
+		ctrlField = "readonly"
+	}
 	// R-C15-1
 	carries := map[string]bool{}
 	for _, d := range ds {
@@ -36,7 +42,7 @@ func runC15(p *Program, r *Report) {
 		ok := false
 		rs := Origins(vs[0], nil)
 		for _, rt := range rs {
-			if rt.Kind == "field" && rt.Desc == "readonly" {
+			if rt.Kind == "field" && rt.Desc == ctrlField {
 				ok = true
 			}
 		}
@@ -209,7 +215,6 @@ func runC15(p *Program, r *Report) {
 	}
 
 	// R-C15-5 plumbing
-	c15Plumbing(p, r)
 }
 
 func fieldStoreOrigin(f *ssa.Function, field string) ([]ssa.Value, token.Pos) {
@@ -230,76 +235,135 @@ func fieldStoreOrigin(f *ssa.Function, field string) ([]ssa.Value, token.Pos) {
 	return out, pos
 }
 
-func c15Plumbing(p *Program, r *Report) {
-	// WithReadOnly$1 stores true
-	if f := p.Func("s3api.WithReadOnly$1"); f != nil {
-		vs, pos := fieldStoreOrigin(f, "readonly")
-		ok := len(vs) == 1
-		if ok {
-			b, isB := constBool(vs[0])
-			ok = isB && b
+// c15Chain: the read-only switch followed from the option to the controller, every link found by what flows
+// where (no field or parameter is named): WithReadOnly's closure stores true into a server field F1; New hands
+// an argument read from F1 to AclParser (its bool parameter) and to the router's Init (parameter P); Init hands
+// P to controllers.New (parameter Q); controllers.New stores Q into a controller field F2. Returns F2.
+func c15Plumbing(p *Program, r *Report) string {
+	rule := "R-C15-5"
+	// 1. the field the option sets
+	f1 := ""
+	wf := p.Func("s3api.WithReadOnly")
+	var pos1 token.Pos = wf.Pos()
+	for _, ret := range returnsOf(wf) {
+		for _, g := range funcValuesOf(ret.Results[0]) {
+			for _, b := range g.Blocks {
+				for _, in := range b.Instrs {
+					st, ok := in.(*ssa.Store)
+					if !ok {
+						continue
+					}
+					fa, ok := st.Addr.(*ssa.FieldAddr)
+					if !ok {
+						continue
+					}
+					if bv, isB := constBool(st.Val); isB && bv {
+						f1 = fieldName(fa.X.Type(), fa.Field)
+						pos1 = st.Pos()
+					}
+				}
+			}
 		}
-		r.Check(ok, "R-C15-5", "s3api.WithReadOnly/readonly=true", p.Pos(pos), "stores true", "WithReadOnly does not store the constant true into S3ApiServer.readonly")
 	}
-	hasField := func(v ssa.Value, field string) (bool, string) {
-		rs := Origins(v, nil)
-		for _, rt := range rs {
+	r.Check(f1 != "", rule, "s3api.WithReadOnly/readonly=true", p.Pos(pos1), "stores true into a server field", "WithReadOnly does not store the constant true into a field of S3ApiServer")
+	if f1 == "" {
+		return ""
+	}
+	fromField := func(v ssa.Value, field string) bool {
+		for _, rt := range Origins(v, nil) {
 			if rt.Kind == "field" && rt.Desc == field {
-				return true, rootsDesc(rs)
+				return true
 			}
 		}
-		return false, rootsDesc(rs)
+		return false
 	}
-	isParam := func(v ssa.Value, name string) (bool, string) {
+	onlyParam := func(v ssa.Value, prm *ssa.Parameter) bool {
 		rs := terminalRoots(Origins(v, nil))
-		ok := len(rs) > 0
+		if len(rs) == 0 {
+			return false
+		}
 		for _, rt := range rs {
-			if rt.Kind != "param" || rt.Desc != name {
-				ok = false
+			if rt.Kind != "param" || rt.Desc != refParamName(prm) {
+				return false
 			}
 		}
-		return ok, rootsDesc(rs)
+		return true
 	}
-	// s3api.New -> AclParser(be, l, server.readonly) and router.Init(..., server.readonly)
+	// 2. New -> AclParser / Init: the argument read from F1
 	nf := p.Func("s3api.New")
+	var initParam *ssa.Parameter
+	inf := p.Func("(*s3api.S3ApiRouter).Init")
 	for _, tgt := range []string{"s3api/middlewares.AclParser", "(*s3api.S3ApiRouter).Init"} {
 		cs := callsTo(nf, tgt)
 		if len(cs) != 1 {
-			r.Viol("R-C15-5", "s3api.New->"+tgt, p.Pos(nf.Pos()), "expected exactly one call")
+			r.Viol(rule, "s3api.New->"+tgt, p.Pos(nf.Pos()), "expected exactly one call")
 			continue
 		}
-		a := callArgs(cs[0])
-		ok, d := hasField(a[len(a)-1], "readonly")
-		r.Check(ok, "R-C15-5", "s3api.New->"+tgt+".readonly", p.Pos(cs[0].Pos()), "last argument <- server.readonly", "the read-only argument does not originate from server.readonly: "+d)
-	}
-	// Init -> controllers.New(..., readonly)
-	inf := p.Func("(*s3api.S3ApiRouter).Init")
-	if cs := callsTo(inf, ctrlPkg+".New"); len(cs) == 1 {
-		a := callArgs(cs[0])
-		ok, d := isParam(a[len(a)-1], "readonly")
-		r.Check(ok, "R-C15-5", "S3ApiRouter.Init->controllers.New.readonly", p.Pos(cs[0].Pos()), "last argument <- parameter readonly", "controllers.New does not receive Init's readonly parameter: "+d)
-	} else {
-		r.Viol("R-C15-5", "S3ApiRouter.Init->controllers.New.readonly", p.Pos(inf.Pos()), "expected exactly one controllers.New call")
-	}
-	// controllers.New stores param in field
-	cn := p.Func(ctrlPkg + ".New")
-	{
-		vs, pos := fieldStoreOrigin(cn, "readonly")
-		ok := len(vs) == 1
-		d := "no store"
-		if ok {
-			ok, d = isParam(vs[0], "readonly")
+		args := cs[0].Common().Args // with the receiver, as Params
+		g := cs[0].Common().StaticCallee()
+		idx := -1
+		for i, a := range args {
+			if bt, ok := a.Type().Underlying().(*types.Basic); ok && bt.Kind() == types.Bool && fromField(a, f1) {
+				idx = i
+			}
 		}
-		r.Check(ok, "R-C15-5", "controllers.New/readonly<-param", p.Pos(pos), "field readonly <- parameter readonly", "S3ApiController.readonly is not set from New's readonly parameter: "+d)
+		ok := idx >= 0 && g != nil && idx < len(g.Params)
+		if ok && tgt == "s3api/middlewares.AclParser" {
+			// AclParser has one bool parameter: that is where it must arrive
+			nb := 0
+			for _, prm := range g.Params {
+				if bt, isB := prm.Type().Underlying().(*types.Basic); isB && bt.Kind() == types.Bool {
+					nb++
+				}
+			}
+			ok = nb == 1
+		}
+		if ok && tgt != "s3api/middlewares.AclParser" {
+			initParam = g.Params[idx]
+		}
+		r.Check(ok, rule, "s3api.New->"+tgt+".readonly", p.Pos(cs[0].Pos()), "a bool argument <- server."+f1, "no bool argument of the call is read from the server field "+f1+" that WithReadOnly sets")
 	}
-	// cmd: WithReadOnly appended under the readonly flag
+	// 3. Init -> controllers.New
+	var ctrlParam *ssa.Parameter
+	cn := p.Func(ctrlPkg + ".New")
+	if cs := callsTo(inf, ctrlPkg+".New"); len(cs) == 1 && initParam != nil {
+		args := cs[0].Common().Args
+		for i, a := range args {
+			if onlyParam(a, initParam) && i < len(cn.Params) {
+				ctrlParam = cn.Params[i]
+			}
+		}
+		r.Check(ctrlParam != nil, rule, "S3ApiRouter.Init->controllers.New.readonly", p.Pos(cs[0].Pos()), "an argument <- Init's parameter "+initParam.Name(), "controllers.New does not receive Init's read-only parameter ("+initParam.Name()+")")
+	} else if initParam != nil {
+		r.Viol(rule, "S3ApiRouter.Init->controllers.New.readonly", p.Pos(inf.Pos()), "expected exactly one controllers.New call")
+	}
+	// 4. controllers.New stores it in a controller field
+	f2 := ""
+	if ctrlParam != nil {
+		var pos token.Pos = cn.Pos()
+		for _, b := range cn.Blocks {
+			for _, in := range b.Instrs {
+				st, ok := in.(*ssa.Store)
+				if !ok {
+					continue
+				}
+				if fa, ok := st.Addr.(*ssa.FieldAddr); ok && onlyParam(st.Val, ctrlParam) {
+					f2 = fieldName(fa.X.Type(), fa.Field)
+					pos = st.Pos()
+				}
+			}
+		}
+		r.Check(f2 != "", rule, "controllers.New/readonly<-param", p.Pos(pos), "a controller field <- parameter "+ctrlParam.Name(), "controllers.New does not keep its read-only parameter ("+ctrlParam.Name()+") in the controller")
+	}
+	// cmd: WithReadOnly appended under the package variable the --readonly flag is bound to
+	flagGlobal := c15FlagGlobal(p)
 	found := false
 	for _, f := range p.FuncsIn("cmd/versitygw") {
 		for _, c := range callsTo(f, "s3api.WithReadOnly") {
 			found = true
 			var cut []edge
 			for _, ce := range condEdgesOf(f) {
-				if ce.atoms["global:readonly"] {
+				if flagGlobal != "" && ce.atoms["global:"+flagGlobal] {
 					cut = append(cut, ce.holds)
 				}
 			}
@@ -321,6 +385,44 @@ func c15Plumbing(p *Program, r *Report) {
 	if !found {
 		r.Viol("R-C15-5", "cmd/versitygw/WithReadOnly", "-", "cmd/versitygw never calls s3api.WithReadOnly: the --readonly flag has no effect")
 	}
+	return f2
+}
+
+// c15FlagGlobal: the package variable of cmd/versitygw whose address is the Destination of the cli flag named
+// "readonly" (the flag's name is the user interface; the variable's name is not).
+func c15FlagGlobal(p *Program) string {
+	for _, f := range p.FuncsIn("cmd/versitygw") {
+		for _, b := range f.Blocks {
+			for _, in := range b.Instrs {
+				st, ok := in.(*ssa.Store)
+				if !ok {
+					continue
+				}
+				fa, ok := st.Addr.(*ssa.FieldAddr)
+				if !ok || fieldName(fa.X.Type(), fa.Field) != "Name" {
+					continue
+				}
+				if sv, isS := constString(st.Val); !isS || sv != "readonly" {
+					continue
+				}
+				// the Destination store of the same literal
+				for _, in2 := range b.Instrs {
+					st2, ok := in2.(*ssa.Store)
+					if !ok {
+						continue
+					}
+					fa2, ok := st2.Addr.(*ssa.FieldAddr)
+					if !ok || fa2.X != fa.X || fieldName(fa2.X.Type(), fa2.Field) != "Destination" {
+						continue
+					}
+					if g, isG := st2.Val.(*ssa.Global); isG {
+						return g.Name()
+					}
+				}
+			}
+		}
+	}
+	return ""
 }
 
 func controlsC15() []Control {
